@@ -212,20 +212,24 @@ AMENDS = {'C02': [('text', 'a rejection triggers a product search for a concrete
   ('text', 'U+xxxx..U+yyyy)', 'U+xxxx..U+yyyy; every fifth program compiled with -g and runs of code points the font lacks)')],
  'C03': [('text', 'never meets an unknown opcode or truncated operand and ends in a return,', 'never meets an unknown opcode or truncated operand and ends in a return (the executable checker additionally requires exactly one value on the stack at the return),'),
   ('text', 'and requires libgraphite2 to load and shape with each font.', 'and requires libgraphite2 to load and shape with each font; hand-written programs add collision passes with complexFit glyphs (sub-box records), justification, line-break items, attachment from metrics.'),
-  ('text', 'Proof: Grc.Code.check_sound', "Proof: Grc.Wr.binarySearchConstants_eq_searchConsts (the compiler's BinarySearchConstants loop, transcribed, yields for EVERY n the search header the decoders demand), Grc.Wr.beU16_write16 / beU32_write32 (the big-endian writers, transcribed, are read back by the decoders' readers as the value modulo the field width, for every value; T1: the text of these functions and of the WriteByte/Short/Int members is re-extracted on every run, WritersGen.*); Grc.Code.check_sound")],
+  ('text', 'Proof: Grc.Code.check_sound', "Proof: Grc.Wr.binarySearchConstants_eq_searchConsts (the compiler's BinarySearchConstants loop, transcribed, yields for EVERY n the search header the decoders demand), Grc.Wr.beU16_write16 / beU32_write32 (the big-endian writers, transcribed, are read back by the decoders' readers as the value modulo the field width, for every value; T1: the text of these functions and of the WriteByte/Short/Int members is re-extracted on every run, WritersGen.*); Grc.Code.check_sound"),
+  ('text', 'hand-written programs add collision passes', 'one output in four is compiled again as the input font and must be as well-formed; hand-written programs add collision passes')],
  'C05': [('note', 'Not covered yet: m-unit scaling, glyph metrics/point()/box() in values,', "Scaled numbers (m / M suffix with a global MUnits) are generated and expected with the compiler's float arithmetic. Not covered yet: glyph metrics/point()/box() in values,"),
-  ('text', '(overlapping classes, environments toggling AttributeOverride, boundary values)', '(overlapping classes, environments toggling AttributeOverride, boundary values; every sixth program on built-in collision.* / sequence.* attributes with a collision pass)')],
+  ('text', '(overlapping classes, environments toggling AttributeOverride, boundary values)', '(overlapping classes, environments toggling AttributeOverride, boundary values; every sixth program on built-in collision.* / sequence.* attributes with a collision pass)'),
+  ('text', 'every sixth program on built-in collision.* / sequence.* attributes with a collision pass)', 'every sixth program on built-in collision.* / sequence.* attributes with a collision pass; conditional expressions over glyph metrics with per-glyph expected values)')],
  'C10': [('text', 'Tie: 33 single-fault injections', 'Tie: 45 single-fault injections'),
   ('text', 'incl. slot references to inserted items in component references, attribute values and constraints)', 'incl. slot references to inserted items and to line-break items in selectors, associations, component references, attribute values and constraints, item number 0 with and without ANY padding)')],
  'C11': [('text', 'on a corpus of 33 past failures,', 'on a corpus of 46 past failures (incl. preprocessor arithmetic: division by zero in skipped operands, INT_MIN / -1, fatal buffer overflows; the death of gdlpp counts as a crash),')],
  'C12': [('text', 'fifteen program families (', "29 program families (padded rule slots (the 64-slot limit reached through another rule's leading context; above it the program MUST be rejected), script tags around 255/256, justification attribute ids beyond one byte, ligature components per glyph, FSM states around 65535, matched-rule entries around 65535, MaxRuleLoop / MaxBackup, ExtraAscent / ExtraDescent, feature setting values and hidden feature ids around 16 bits, Sill table bytes, glyph-attribute count around 65535/65536, "),
   ('text', 'Proof: Grc.Lim.guarded_no_wrap', 'Proof: Grc.Writes.classified_fit / guarded_value_unchanged - every one of the 101 narrowing writes (WriteByte / WriteShort with a non-literal argument) of the Silf, Glat, Gloc, Feat and Sill writers, listed from the current source by tools/extract_writes.py, has a row in a classification table (guarded maximum / bit field / derived) and every guarded maximum fits its field (T1 obligations WritesGen.every_write_classified, census_as_classified); Grc.Lim.guarded_no_wrap'),
-  ('note', 'Field widths are my reading of GTF.', 'Field widths are my reading of GTF; that the guard named in a row of the census really bounds the written expression is my reading of the code (tested by the families), not a theorem.')],
+  ('note', 'Field widths are my reading of GTF.', 'Field widths are my reading of GTF; that the guard named in a row of the census really bounds the written expression is my reading of the code (tested by the families), not a theorem.'),
+  ('text', '29 program families (', '34 program families (rule actions reading glyph attributes numbered above 255, checked through the engine with default options, -p and -v2 -p, ')],
  'C13': [('text', 'rejected programs with syntax / semantic / preprocessor errors, + suite programs)', "rejected programs with syntax / semantic / preprocessor errors, a program built on gdlpp's predefined macros, + suite programs)"),
   ('note', 'wall-clock dependence is not perturbed.', 'wall-clock dependence is perturbed only by one run a few seconds later (enough for a time-of-day macro, not for a date).'),
   ('text', "a program built on gdlpp's predefined macros,", "a program built on gdlpp's predefined macros, renamed non-Regular fonts with preferred-name records,")],
  'C14': [('text', '(1-35 passes, insertion-first/deletion/context-only rules, explicit passKeySlot, ANY)', '(1-35 passes, insertion-first/deletion/context-only rules, explicit passKeySlot, ANY, bidi passes with mirror attributes, a rule-less CollisionFix pass before passes with rules)'),
-  ('text', 'a rule-less CollisionFix pass before passes with rules)', 'a rule-less CollisionFix pass before passes with rules, key classes touched by set operations or holding -g placeholders, ANY named in a set operation)')],
+  ('text', 'a rule-less CollisionFix pass before passes with rules)', 'a rule-less CollisionFix pass before passes with rules, key classes touched by set operations or holding -g placeholders, ANY named in a set operation)'),
+  ('text', 'ANY named in a set operation)', 'ANY named in a set operation, AutoKern passes with rules); positions are compared as well as glyphs')],
  'C15': [('text', '(every third one with passes under pass-level feature tests, every fifth with a collision-fixing pass)', '(every third one with passes under pass-level feature tests - nested ifs and if/elseif/else chains, whose rules are visible in the rendered text and whose pass-constraint code must be the conjunction of the tests -, every fifth with a collision-fixing pass, justification values beyond 16 bits)'),
   ('text', 'justification values beyond 16 bits)', 'justification values beyond 16 bits, every seventh with more than 255 glyph attributes read by a rule action); a build that ends with a status other than 0 / 1 is a violation')],
  'C16': [('text', 'for generated feature and language tables over input fonts', 'for generated feature and language tables (language ids spelled 1036, x040C and 0x040C; boolean features with and without a declared default) over input fonts (Unicode- and symbol-encoded)'),
@@ -242,7 +246,8 @@ AMENDS = {'C02': [('text', 'a rejection triggers a product search for a concrete
  'C20': [('text', '(simple and composite glyphs, all glyf flag forms)', '(simple glyphs in all glyf flag forms; composites with offsets, nested composites, components with one scale or separate x/y scales incl. mirrored ones, each scaled coordinate cut to an integer toward zero as TtfUtil does)'),
   ('note', 'float32 rounding of the compiler is not modelled.', 'float32 rounding of the compiler is not modelled (generated scales are multiples of 1/8, exact in float); 2x2 component transforms are not modelled (glyph skipped, counted).'),
   ('text', 'complexFit on a random subset.', 'complexFit (as a literal or as an expression over glyph metrics) on a random subset, which is told to the checker: for those glyphs the occupied cells must cover every point even when the bitmap is empty.')],
- 'C09': [('text', 'Tie: 38 constructed scenarios', 'fsm_failure_touches_nothing (an error found after the state machines are generated: exit 1, the destination neither opened nor removed). Tie: 51 constructed scenarios (incl. a state machine too large for the font, debug files for dotted output paths) and a write fault (file-size limit) at 15 positions of the output font, also inside the last tables; scenarios')],
+ 'C09': [('text', 'Tie: 38 constructed scenarios', 'fsm_failure_touches_nothing (an error found after the state machines are generated: exit 1, the destination neither opened nor removed). Tie: 51 constructed scenarios (incl. a state machine too large for the font, debug files for dotted output paths) and a write fault (file-size limit) at 15 positions of the output font, also inside the last tables; scenarios'),
+  ('text', 'Tie: 51 constructed scenarios', "Tie: 66 constructed scenarios (also: the compiler's own output as input font, every failure stage with -D, an error file that is one of the run's own files, an empty directory at the output path, an unknown code page)")],
  'C01': [('text', 'over nine program families', 'over nine program families (every third program refers to items by slot aliases declared on the left-hand side, the right-hand side or in the context)')]}
 for _k, _l in AMENDS.items():
     for _f, _a, _b in _l:
